@@ -6,7 +6,7 @@ from pathlib import Path
 root = Path(__file__).resolve().parent.parent / "seeded"
 hist = json.loads((root / "history.json").read_text()) if (root / "history.json").exists() else {}
 rows = []
-for d in sorted(p for p in root.iterdir() if p.is_dir()):
+for d in sorted(p for p in root.iterdir() if p.is_dir() and (p / "meta.json").exists()):
     m = json.loads((d / "meta.json").read_text())
     rules = {p: v["rules"] for p, v in m.get("reported_now", m.get("checks_reporting", {})).items() if v.get("exit") == 1}
     notes = " ".join(m.get("notes", "").split())[:260]
